@@ -21,7 +21,8 @@ RULE = ("The 20 commandable classes of local/object.py (registered with vendor 9
         "and released afterwards. Non-trivial: history with >= 2 occupied slots at some point, or a relinquish of an occupied "
         "slot, or a refused command. Distinct by (class, mode, history)."
         " Also: the relinquish default changed by the local application before / between / after commands."
-        " Commands carrying a value outside the enumeration (over the wire); other watchers of the present value bound and unbound during minimum on/off holds.")
+        " Commands carrying a value outside the enumeration (over the wire); other watchers of the present value bound and unbound during minimum on/off holds."
+        " Relinquish without a priority field (counts as 16), directly and over the wire. One reduced copy of a generated shard runs with the library's debug tracing switched on (label tracing-on).")
 ASSUMPTIONS = [
     "DateTime commandables are created with an explicit relinquishDefault / presentValue (a constructed datatype has no encodable default value)",
     "the ...CmdObject classes behave as commandable only after register_object_type(cls, vendor_id=...); the harness registers them",
